@@ -108,9 +108,16 @@ pub fn build_from_parts(ty: i32, input: &[(i32, Vec<V>)], use_new: bool) -> Shap
             let ps: Vec<Patch> = input.iter().map(|(k, v)| patch(*k, v.iter().map(to_pz).collect())).collect();
             Shape::Multipatch(if single { Multipatch::new(ps.into_iter().next().unwrap()) } else { Multipatch::with_parts(ps) })
         }
+        // `use_new`: the single-part constructor of the polylines, the `From<Vec<_>>` one of the multipoints
+        3 if single => Shape::Polyline(Polyline::new(input[0].1.iter().map(to_p2).collect())),
+        23 if single => Shape::PolylineM(PolylineM::new(input[0].1.iter().map(to_pm).collect())),
+        13 if single => Shape::PolylineZ(PolylineZ::new(input[0].1.iter().map(to_pz).collect())),
         3 => Shape::Polyline(Polyline::with_parts(input.iter().map(|(_, v)| v.iter().map(to_p2).collect()).collect())),
         23 => Shape::PolylineM(PolylineM::with_parts(input.iter().map(|(_, v)| v.iter().map(to_pm).collect()).collect())),
         13 => Shape::PolylineZ(PolylineZ::with_parts(input.iter().map(|(_, v)| v.iter().map(to_pz).collect()).collect())),
+        8 if use_new => Shape::Multipoint(Multipoint::from(input[0].1.iter().map(to_p2).collect::<Vec<_>>())),
+        28 if use_new => Shape::MultipointM(MultipointM::from(input[0].1.iter().map(to_pm).collect::<Vec<_>>())),
+        18 if use_new => Shape::MultipointZ(MultipointZ::from(input[0].1.iter().map(to_pz).collect::<Vec<_>>())),
         8 => Shape::Multipoint(Multipoint::new(input[0].1.iter().map(to_p2).collect())),
         28 => Shape::MultipointM(MultipointM::new(input[0].1.iter().map(to_pm).collect())),
         18 => Shape::MultipointZ(MultipointZ::new(input[0].1.iter().map(to_pz).collect())),
